@@ -3,13 +3,13 @@
 # runthorough.sh), runs the quick check with separate build and evidence directories, reverts, prints the result.
 cd "$(dirname "$0")/.."
 pf="$1"; chk="$2"; label="${3:-seed}"
-touch .build/repo.lock
-while [ -e .build/thorough.building ]; do sleep 3; done
+touch .build/repo.lock; sleep 2
+while [ -e .build/thorough.building ] || ls .build/building.* >/dev/null 2>&1; do sleep 3; done
 if ! git -C /repo apply --check "$pf" 2>/dev/null; then echo "== $label: patch does not apply"; rm -f .build/repo.lock; exit 3; fi
 git -C /repo apply "$pf"
 # build while the patch is applied, then release /repo before the (long) run
 export VERIF_BUILD_TAG=seed VERIF_EVIDENCE_DIR=/verif/.build/seed-evidence
-VERIF_BUILD_ONLY=1 ./check $chk > .build/seed-$label-$chk.build.log 2>&1
+VERIF_LOCK_HOLDER=1 VERIF_BUILD_ONLY=1 ./check $chk > .build/seed-$label-$chk.build.log 2>&1
 git -C /repo checkout -- .
 rm -f .build/repo.lock
 VERIF_SKIP_BUILD=1 ./check $chk > .build/seed-$label-$chk.log 2>&1
